@@ -1,5 +1,6 @@
 import ConfModel.Driver.Common
 import ConfModel.Model.ReportScript
+import ConfModel.Model.ReportMsg
 import ConfModel.Spec.RunVerdict
 import ConfModel.Model.RunLoop
 import ConfModel.Model.FeedbackLine
@@ -29,6 +30,34 @@ def parseStep (i : Nat) (code : String) : Option Step :=
 
 def parseSteps (codes : List String) : Option (List Step) :=
   (codes.zipIdx.map (fun (c, i) => parseStep i c)).mapM id
+
+/-- the texts a peer may report (the table `c04Msgs` of the harness) -/
+def msgOf : Char → Option String
+  | 'd' => some "client could not do it"
+  | 'e' => some ""
+  | 'n' => some "\n"
+  | 'b' => some " \r\n\t\n"
+  | 's' => some " "
+  | 'm' => some "first line\n\n  third line  \r\n"
+  | 'f' => some "%s %d %!v(MISSING) 100% %[2]q"
+  | 'l' => some (String.join (List.replicate 2000 "long "))
+  | 'c' => some "a: b: c"
+  | 'u' => some "non-ASCII: ünï ✓"
+  | _ => none
+
+/-- a case code with what the peers said: 4 characters (default texts) or 6 -/
+def parseMStep (i : Nat) (code : String) : Option ReportMsg.MStep :=
+  match code.toList with
+  | [k, m, fb, sf] => (parseStep i (String.ofList [k, m, fb, sf])).map fun s => { s := s, errMsg := "client could not do it", fbMsg := "peer feedback" }
+  | [k, m, fb, sf, e, f] => do
+    let s ← parseStep i (String.ofList [k, m, fb, sf])
+    let em ← msgOf e
+    let fm ← msgOf f
+    pure { s := s, errMsg := em, fbMsg := if f == 'd' then "peer feedback" else fm }
+  | _ => none
+
+def parseMSteps (codes : List String) : Option (List ReportMsg.MStep) :=
+  (codes.zipIdx.map (fun (c, i) => parseMStep i c)).mapM id
 
 
 /-! ### op "runloop": the real `Run` with a scripted client process, judged by the rule of the
@@ -85,8 +114,11 @@ def handleRunLoop (inp impl : Json) : Verdict :=
     if tnames.isEmpty then (match (n.splitOn "/").getLast? with
       | some base => (base.drop 1).toString.toNat?
       | none => none) else loopIdx tnames n
+  let tamperOf (n : String) : String := ((idxOf n).bind (tamper[·]?)).getD ""
+  -- "err:<key>": the client reports an error of its own (whatever its message) instead of a result
+  let ownErr (n : String) : Bool := (tamperOf n).startsWith "err:"
   let tampered (n : String) : Bool :=
-    ((idxOf n).bind (tamper[·]?)).getD "" != "" && (n.splitOn "(grpc server impl)").length == 1
+    tamperOf n != "" && !ownErr n && (n.splitOn "(grpc server impl)").length == 1
   let fb (n : String) : Bool := tampered n && answered.contains n && !blind.contains n
   let markOfName (n : String) : Mark := ((codeOf n)[1]?.bind parseMark).getD .unmarked
   let right (n : String) : Bool := (codeOf n)[0]? == some 'r'
@@ -94,7 +126,8 @@ def handleRunLoop (inp impl : Json) : Verdict :=
   let cases : List Case := names.map fun n =>
     { name := n
       kind := if blind.contains n then .clientErr
-              else if answered.contains n then (if right n then .pass else .assertFail) else .noResult
+              else if answered.contains n then (if ownErr n then .clientErr else if right n then .pass else .assertFail)
+              else .noResult
       mark := markOfName n, feedback := fb n }
   let want := specOk cases 0
   -- a client that has closed its stdout after answering everything still ends cleanly: it exits
@@ -117,7 +150,7 @@ def handleRunLoop (inp impl : Json) : Verdict :=
   let script (b : List String) : ServerRunner.Script :=
     { cases := b.map fun n =>
         if blind.contains n then .answer .error true
-        else if answered.contains n then .answer (if right n then .pass else .mismatch) true
+        else if answered.contains n then .answer (if ownErr n then .error else if right n then .pass else .mismatch) true
         else if read.contains n then .answer .noresult true   -- handed over, never answered
         else .refuse
       isRef := true, useTLS := false, startErr := false, writeErr := false, closeErr := false
@@ -158,7 +191,7 @@ def handleRunLoop (inp impl : Json) : Verdict :=
   { agree := agree, holds := why.isEmpty, nontrivial := true,
     model := Json.mkObj [("ok", mOk), ("passed", mTot.passed), ("expected", mTot.expected), ("failedOrNotRun", mTot.failed + mTot.notRun)],
     why := why,
-    cls := (if names.any fb then "peer-feedback:" else "") ++ (if tnames.isEmpty then "" else "odd-names:") ++
+    cls := (if names.any fb then "peer-feedback:" else "") ++ (if names.any ownErr then "client-error-message:" else "") ++ (if tnames.isEmpty then "" else "odd-names:") ++
       stop ++ (if want then ":all-answered" else ":not-all") ++ (if iOk then ":success" else ":failure") }
 
 /-! ### op "inrun": one whole run in one process (real client runner on an in-process scripted client,
@@ -213,8 +246,8 @@ def handleInRun (inp impl : Json) : Verdict :=
         match ansOf i with
         | some "pass" => .answer .pass true
         | some "mismatch" => .answer .mismatch true
-        | some "error" => .answer .error true
-        | some _ => .answer .neither true
+        | some "neither" => .answer .neither true
+        | some _ => .answer .error true          -- "error" / "error:<message key>"
         | none => if i < read then .answer .noresult true else .refuse
       isRef := bool (field inp "isRef"), useTLS := false, startErr := false, writeErr := false, closeErr := false
       resp := .ok, dies := none, names := (List.range n).map (fun i => (name i).toList), stderr := [] }
@@ -299,9 +332,10 @@ def handleCliArgs (inp impl : Json) : Verdict :=
 def handle : Handler := fun op inp impl =>
   match op with
   | "report" =>
-    match parseSteps (strList (field inp "cases")) with
+    match parseMSteps (strList (field inp "cases")) with
     | none => bad "malformed case code"
-    | some steps =>
+    | some msteps =>
+    let steps := msteps.map (·.s)
     if !(isNull (field impl "panic")) then
       { agree := false, holds := false, why := "panic: " ++ str (field impl "panic") } else
     let total := nat (field inp "total")
@@ -315,7 +349,9 @@ def handle : Handler := fun op inp impl =>
     let iInfo := sortStrings (strList (field impl "infoNames"))
     let unparsed := strList (field impl "unparsed")
     -- model
-    let m := scriptReport total steps
+    -- the model WITH the texts the peers reported (`script_report_texts`: for all texts it is the
+    -- text-free `scriptReport total steps`)
+    let m := ReportMsg.scriptReport total msteps
     let mTot : Totals := { passed := m.succeeded, failed := m.failed, expected := m.expectedFailures, notRun := m.couldNotRun }
     -- the API call sequence must amount to the outcome map the theorems (`assignment_report`) speak of
     let m2 := report (marksOf cases) total (finalMap cases) []
